@@ -299,6 +299,8 @@ def violates (side : Side) : Phase → List K → Bool
   | _, .X :: _ => true
   | _, .M :: _ => false
   | _, .S :: _ => false
+  | _, .W :: _ => false
+  | _, .Wpart :: _ => false
   | _, .P :: _ => side == .server
   | .start, .H b :: r => violates side (.body b []) r
   | .start, .D _ :: _ => true
